@@ -715,7 +715,7 @@ class C12(Prop):
             # whole lag box by the array twin; the model itself at the decisive lags, among them the true
             # translation and the implementation's answer
             probe = [list(want)] + ([impl] if isinstance(impl, list) and len(impl) == x.ndim and impl != list(want) else [])
-            rep = ctx.driver.call("c12.registerLong", a=jx, b=jy, probe=probe)
+            rep = ctx.driver.call("c12.registerLong", a=jx, b=jy, probe=probe, truth=list(want))
             if rep["lag"] == want and (rep["asked"][0] is None or unrat(rep["asked"][0]) != unrat(rep["max"])):
                 raise core.InternalError("c12.registerLong: the model's xcorr at the true lag is not the reported maximum")
         else:
@@ -774,12 +774,18 @@ class C12(Prop):
                 feats.add(f"{name}:peak-at-truth" if reps[name]["at_truth"] else f"{name}:peak-not-at-truth(compared)")
                 if reps[name].get("truthHyp"):
                     feats.add(f"{name}:truth-theorem-applies")
+                if reps[name].get("zeroBg"):
+                    feats.add(f"{name}:zero-background-theorem-applies")
+                    if costly:
+                        feats.add("route:array-twin:zero-background-theorem-applies")
         # register, then merge at the estimated offset: the clause presupposes that the estimate is the true translation
         merge_on = det["ab"] and reps["ab"]["at_truth"] and isinstance(impl["ab"], list)
         if merge_on:
             impl["merge"], model["merge"], spec["merge"] = [], [], []
+            # the model side merges at the estimate the mechanism model returned (theorem merge_at_estimate), the
+            # implementation at its own estimate, the specification is the scene with the windows at the true translation
             rep = ctx.driver.call("c12.merge", scene=img_json(scene), offA=A["off"], offB=B["off"],
-                                  shapeA=A["shape"], shapeB=B["shape"],
+                                  shapeA=A["shape"], shapeB=B["shape"], est=reps["ab"]["model"],
                                   variants=[{"mode": m, "fill": None if f is None else core.rat(Fraction(f))}
                                             for m, f in MERGE_VARIANTS])
             for (m, f), r in zip(MERGE_VARIANTS, rep["results"]):
@@ -793,7 +799,7 @@ class C12(Prop):
                 spec["merge"].append({"shape": r["specShape"], "data": [qhex(v) for v in r["spec"]]})
             if "nan" in spec["merge"][0]["data"]:
                 feats.add("merge:uncovered-corner")
-            feats.add("merge:replace+mean x fill nan/0/finite")
+            feats.add("merge-at-the-estimate:replace+mean x fill nan/0/finite")
         else:
             impl["merge"] = model["merge"] = spec["merge"] = MASK
         if case.get("bg") == "zero":
@@ -901,6 +907,8 @@ class C12(Prop):
                     feats.add("history:peak-at-truth" if rep["at_truth"] else "history:peak-not-at-truth(compared)")
                     if rep.get("truthHyp"):
                         feats.add("history:truth-theorem-applies")
+                    if rep.get("zeroBg"):
+                        feats.add("history:zero-background-theorem-applies")
                     if prev is not None:
                         for pos, obj, now, was_obj, was in (("first", x, cx, prev[0], prev[2]), ("second", y, cy, prev[1], prev[3])):
                             if obj is was_obj:
